@@ -583,3 +583,206 @@ package mpb
 //@   loop 2   invariant (rangeindex >= 0 ==> dw(content(spaces[0])) == 0) && (rangeindex >= 1 ==> dw(content(spaces[1])) == 0)
 //@   loop 2   invariant dw(content(spaces[0])) <= 1 && dw(content(spaces[1])) <= 1 && len(spaces) == 2
 //@   ensures  rowfits: err == nil ==> dw(content(result0)) <= stat.AvailableWidth
+
+// ---------------------------------------------------------------------------------------
+// width synchronisation (C12) and its error path (C15)
+
+//@ func maxWidthDistributor
+//@   props    C12 C15 C02
+//@   requires forall(i, 0, len(column), column[i] != nil)
+//@   requires distinct: forall(i, 0, len(column), pos(column[i]) == i)
+//@   modifies sent(), recvd()
+//@   loop 1   invariant maxWidth >= 0
+//@   loop 1   invariant forall(j, 0, rangeindex + 1, recvd(column[j]) == old(recvd(column[j])) + 1 && lastRecvd(column[j]) <= maxWidth)
+//@   loop 1   invariant forall(j, rangeindex + 1, len(column), recvd(column[j]) == old(recvd(column[j])))
+//@   loop 1   invariant forall(j, 0, len(column), sent(column[j]) == old(sent(column[j])))
+//@   loop 2   invariant maxWidth >= 0
+//@   loop 2   invariant forall(j, 0, len(column), recvd(column[j]) == old(recvd(column[j])) + 1 && lastRecvd(column[j]) <= maxWidth)
+//@   loop 2   invariant forall(j, 0, rangeindex + 1, sent(column[j]) == old(sent(column[j])) + 1 && lastSent(column[j]) == maxWidth)
+//@   loop 2   invariant forall(j, rangeindex + 1, len(column), sent(column[j]) == old(sent(column[j])))
+//@   ensures  answered@C15: forall(j, 0, len(column), recvd(column[j]) > old(recvd(column[j])) ==> sent(column[j]) > old(sent(column[j])))
+//@   ensures  maximum@C12: forall(j, 0, len(column), sent(column[j]) > old(sent(column[j])) ==> lastSent(column[j]) >= lastRecvd(column[j]) && sent(column[j]) == old(sent(column[j])) + 1)
+//@   ensures  common@C12: forall(j, 0, len(column), forall(k, 0, len(column), sent(column[j]) > old(sent(column[j])) && sent(column[k]) > old(sent(column[k])) ==> lastSent(column[j]) == lastSent(column[k])))
+
+// One distributor per column. That every column holds non-nil, pairwise distinct channels is
+// assumed here (it follows from "one decorator instance per bar" and WC.Init; the matrices are
+// rebuilt in heapManager.run from (*bState).wSyncTable).
+//@ func syncWidth
+//@   props    C12 C02
+//@   assumes  forall(k, MinInt64, MaxInt64 + 1, has(matrix, k) ==> forall(i, 0, len(matrix[k]), matrix[k][i] != nil && pos(matrix[k][i]) == i))
+//@   modifies spawned("maxWidthDistributor")
+//@   ensures  spawned("maxWidthDistributor") >= old(spawned("maxWidthDistributor"))
+
+// ---------------------------------------------------------------------------------------
+// priority queue: heap.Interface laws (C06), bag and index consistency (C05), safety (C02)
+// Preconditions are those container/heap guarantees to its Interface (assumed contract of
+// container/heap: indices passed to Less/Swap are within [0, Len()), Pop is called on a
+// non-empty queue, Push receives the value handed to heap.Push).
+
+//@ func (priorityQueue).Len
+//@   props    C06 C05 C02
+//@   pure
+//@   ensures  result == len(pq)
+
+//@ func (priorityQueue).Less
+//@   props    C06 C02
+//@   pure
+//@   requires 0 <= i && i < len(pq) && 0 <= j && j < len(pq) && pq[i] != nil && pq[j] != nil
+//@   ensures  order: result == (pq[i].priority > pq[j].priority)
+
+//@ func (priorityQueue).Swap
+//@   props    C06 C05 C02
+//@   requires 0 <= i && i < len(pq) && 0 <= j && j < len(pq) && pq[i] != nil && pq[j] != nil && (i != j ==> pq[i] != pq[j])
+//@   modifies elems(Int), Bar.index
+//@   ensures  swapped: pq[i] == old(pq[j]) && pq[j] == old(pq[i])
+//@   ensures  others: forall(k, 0, len(pq), k != i && k != j ==> pq[k] == old(pq[k]))
+//@   ensures  index: pq[i].index == i && pq[j].index == j
+
+//@ func (*priorityQueue).Push
+//@   props    C06 C05 C02
+//@   requires pq != nil && hasType(x, "*Bar") && unboxAs(x, "*Bar") != nil
+//@   modifies mem(Slice), elems(Int), Bar.index
+//@   ensures  grown: len(deref(pq)) == old(len(deref(pq))) + 1
+//@   ensures  last: deref(pq)[old(len(deref(pq)))] == unboxAs(x, "*Bar") && unboxAs(x, "*Bar").index == old(len(deref(pq)))
+//@   ensures  prefix: forall(k, 0, old(len(deref(pq))), deref(pq)[k] == old(deref(pq)[k]))
+
+//@ func (*priorityQueue).Pop
+//@   props    C06 C05 C02
+//@   requires pq != nil && len(deref(pq)) >= 1 && deref(pq)[len(deref(pq)) - 1] != nil
+//@   modifies mem(Slice), elems(Int), Bar.index
+//@   ensures  shrunk: len(deref(pq)) == old(len(deref(pq))) - 1
+//@   ensures  popped: hasType(result, "*Bar") && unboxAs(result, "*Bar") == old(deref(pq)[len(deref(pq)) - 1]) && unboxAs(result, "*Bar").index == -1
+//@   ensures  prefix: forall(k, 0, len(deref(pq)), deref(pq)[k] == old(deref(pq)[k]))
+
+//@ lemma less_irreflexive props C06 forall p int :: !(p > p)
+//@ lemma less_transitive props C06 forall p int, q int, r int :: p > q && q > r ==> p > r
+//@ lemma less_total props C06 forall p int, q int :: p != q ==> (p > q) != (q > p)
+
+// ---------------------------------------------------------------------------------------
+// heap manager (C05 conservation, C06 order, C02 lifecycle, C14 end)
+//
+// Role invariant of the request channel: the command determines the dynamic type of the
+// payload (so the unchecked type assertions of run are safe). An obligation at every send
+// site (the six request constructors), an assumption at the receive in run.
+
+//@ chan heapManager invariant (v.cmd == h_push ==> hasType(v.data, "pushData") && unboxAs(v.data, "pushData").bar != nil)
+//@   && (v.cmd == h_sync ==> hasType(v.data, "<-chan struct{}"))
+//@   && (v.cmd == h_iter ==> hasType(v.data, "iterData") && unboxAs(v.data, "iterData").iter != nil)
+//@   && (v.cmd == h_fix ==> hasType(v.data, "fixData") && unboxAs(v.data, "fixData").bar != nil)
+//@   && (v.cmd == h_state ==> hasType(v.data, "chan<- bool") && v.data != nil)
+//@   && (v.cmd == h_end ==> hasType(v.data, "chan<- interface{}"))
+//@   && h_sync <= v.cmd && v.cmd <= h_end
+
+// The manager closes the request channel when it processes an end request.
+//@ chan heapManager closing v.cmd == h_end
+
+// A bar named in a fix request that carries a non-negative index is in this manager's queue
+// at that index (bars are only ever handed to the manager of their own container, and the
+// index field is maintained by priorityQueue): assumed.
+//@ chan heapManager assume v.cmd == h_fix && hasType(v.data, "fixData") && unboxAs(v.data, "fixData").bar.index >= 0 ==> inheap(unboxAs(v.data, "fixData").bar)
+// Token discipline (C05): a bar named in a push request is not in the queue - the sender is
+// flush handing back a bar it has just been handed, or Add with a new bar: assumed here.
+//@ chan heapManager assume v.cmd == h_push && hasType(v.data, "pushData") ==> !inheap(unboxAs(v.data, "pushData").bar)
+// An iterate request carries channels made for it by the requester, still open.
+//@ chan heapManager invariant v.cmd == h_iter && hasType(v.data, "iterData") ==> !closed(unboxAs(v.data, "iterData").iter)
+//@   && (unboxAs(v.data, "iterData").iterPop != nil ==> !closed(unboxAs(v.data, "iterData").iterPop))
+//@   && unboxAs(v.data, "iterData").iter != unboxAs(v.data, "iterData").iterPop
+
+//@ func (heapManager).sync
+//@   props    C05 C02 C12
+//@   requires m != nil && !closed(m)
+//@   modifies sent(m)
+//@   ensures  sent(m) == old(sent(m)) + 1 && lastSent(m).cmd == h_sync
+
+//@ func (heapManager).iter
+//@   props    C05 C02
+//@   requires m != nil && !closed(m) && iter != nil && !closed(iter) && (iterPop != nil ==> !closed(iterPop)) && iter != iterPop
+//@   modifies sent(m)
+//@   ensures  sent(m) == old(sent(m)) + 1 && lastSent(m).cmd == h_iter
+//@   ensures  unboxAs(lastSent(m).data, "iterData").drop == drop && unboxAs(lastSent(m).data, "iterData").iter == iter && unboxAs(lastSent(m).data, "iterData").iterPop == iterPop
+
+//@ func (heapManager).fix
+//@   props    C06 C05 C02
+//@   requires m != nil && !closed(m) && b != nil
+//@   modifies sent(m)
+//@   ensures  sent(m) == old(sent(m)) + 1 && lastSent(m).cmd == h_fix
+//@   ensures  unboxAs(lastSent(m).data, "fixData").bar == b && unboxAs(lastSent(m).data, "fixData").priority == priority && unboxAs(lastSent(m).data, "fixData").lazy == lazy
+
+//@ func (heapManager).state
+//@   props    C05 C02 C03
+//@   requires m != nil && !closed(m) && ch != nil
+//@   modifies sent(m)
+//@   ensures  sent(m) == old(sent(m)) + 1 && lastSent(m).cmd == h_state
+
+// end: the manager closes the request channel when it processes this request; as far as the
+// sender is concerned the channel is closed from here on (no send may follow).
+//@ func (heapManager).end
+//@   props    C05 C02 C14
+//@   requires m != nil && !closed(m)
+//@   modifies sent(m), closed(m)
+//@   ensures  sent(m) == old(sent(m)) + 1 && lastSent(m).cmd == h_end && closed(m)
+
+// push: the request is enqueued before the caller continues (C05: a bar added before a cycle
+// began is drawn in that cycle; C02: nothing is sent after end)
+//@ func (heapManager).push
+//@   props    C05 C02
+//@   requires m != nil && !closed(m) && b != nil
+//@   modifies sent(m)
+//@   ensures  enqueued: sent(m) == old(sent(m)) + 1 && lastSent(m).cmd == h_push
+//@            && unboxAs(lastSent(m).data, "pushData").bar == b && unboxAs(lastSent(m).data, "pushData").sync == sync
+//@   ensures  inline: spawned() == old(spawned())
+
+
+//@ func (*Bar).wSyncTable
+//@   props    C12 C02
+//@   requires b != nil
+//@   modifies sent(), recvd()
+
+//@ func (heapManager).run$1
+//@   props    C14 C05
+//@   requires ch != nil
+//@   modifies sent(ch)
+//@   ensures  sent(ch) == old(sent(ch)) + 1 && unboxAs(lastSent(ch), "[]*Bar") == bHeap
+
+//@ func (heapManager).run
+//@   props    C05 C06 C02 C12 C14
+//@   requires m != nil
+//@   assumes  emptyheap()
+//@   loop 1   invariant pqwf(bHeap) && len(bHeap) >= 0
+//@   loop 1   ensures push@C05: req.cmd == h_push ==> len(bHeap) == iter(len(bHeap)) + 1 && inheap(unboxAs(req.data, "pushData").bar)
+//@   loop 1   ensures keep@C05: req.cmd == h_sync || req.cmd == h_fix || req.cmd == h_state || req.cmd == h_end ==> len(bHeap) == iter(len(bHeap))
+//@   loop 1   ensures conserved@C05: req.cmd == h_iter ==> closed(unboxAs(req.data, "iterData").iter)
+//@   loop 1   ensures popconserved@C05: req.cmd == h_iter && unboxAs(req.data, "iterData").iterPop != nil
+//@              ==> len(bHeap) + sent(unboxAs(req.data, "iterData").iterPop) == iter(len(bHeap)) + iter(sent(now(unboxAs(req.data, "iterData").iterPop)))
+//@   loop 1   ensures nopop@C05: req.cmd == h_iter && unboxAs(req.data, "iterData").iterPop == nil ==> len(bHeap) == iter(len(bHeap))
+//@   loop 1   ensures all@C05: req.cmd == h_iter && recvd(unboxAs(req.data, "iterData").drop) == iter(recvd(now(unboxAs(req.data, "iterData").drop)))
+//@              ==> sent(unboxAs(req.data, "iterData").iter) == iter(sent(now(unboxAs(req.data, "iterData").iter))) + iter(len(bHeap))
+//@                  && (unboxAs(req.data, "iterData").iterPop != nil ==> len(bHeap) == 0 && closed(unboxAs(req.data, "iterData").iterPop))
+//@   loop 1   ensures fixed@C06: req.cmd == h_fix && iter(now(unboxAs(req.data, "fixData").bar).index) >= 0
+//@              ==> unboxAs(req.data, "fixData").bar.priority == unboxAs(req.data, "fixData").priority
+//@                  && (unboxAs(req.data, "fixData").lazy ==> !hord()) && (!unboxAs(req.data, "fixData").lazy && iter(hord()) ==> hord())
+//@   loop 1   ensures unfixed@C06: req.cmd == h_fix && iter(now(unboxAs(req.data, "fixData").bar).index) < 0
+//@              ==> unboxAs(req.data, "fixData").bar.priority == iter(now(unboxAs(req.data, "fixData").bar).priority) && hord() == iter(hord())
+//@   loop 1   ensures syncflag@C12: req.cmd == h_push ==> sync == (iter(sync) || unboxAs(req.data, "pushData").sync)
+//@   loop 1   ensures synced@C12: req.cmd == h_sync ==> !sync && len == len(bHeap) && spawned("maxWidthDistributor") >= iter(spawned("maxWidthDistributor"))
+//@   loop 1   ensures syncframe@C12: req.cmd != h_push && req.cmd != h_sync ==> sync == iter(sync) && len == iter(len)
+//@   loop 1   ensures state@C03: req.cmd == h_state ==> sent(unboxAs(req.data, "chan<- bool")) == iter(sent(now(unboxAs(req.data, "chan<- bool")))) + 1
+//@              && lastSent(unboxAs(req.data, "chan<- bool")) == (sync || len != len(bHeap))
+//@   loop 1   ensures ended@C14,C05,C02: req.cmd == h_end ==> closed(m)
+//@   loop 1   ensures notify@C14: req.cmd == h_end && unboxAs(req.data, "chan<- interface{}") != nil ==> spawned("(heapManager).run$1") == iter(spawned("(heapManager).run$1")) + 1
+//@   loop 1   ensures nonotify@C14: req.cmd != h_end ==> spawned("(heapManager).run$1") == iter(spawned("(heapManager).run$1"))
+//@   loop 2   invariant pqwf(bHeap)
+//@   loop 3   invariant pqwf(bHeap)
+//@   loop 4   invariant pqwf(bHeap)
+//@   loop 5   invariant pqwf(bHeap) && len(bHeap) == entry(5, len(bHeap)) && !closed(data.iter) && data.iter != nil
+//@   loop 5   invariant data.iterPop != nil ==> !closed(data.iterPop)
+//@   loop 5   invariant sent(data.iter) == entry(5, sent(data.iter)) + rangeindex + 1 && recvd(data.drop) == entry(5, recvd(data.drop))
+//@   loop 5   invariant data.iter == unboxAs(req.data, "iterData").iter && data.drop == unboxAs(req.data, "iterData").drop && data.iterPop == unboxAs(req.data, "iterData").iterPop
+//@   loop 5   invariant data.iterPop != nil ==> sent(data.iterPop) == entry(5, sent(data.iterPop))
+//@   loop 5   ensures every@C05: sent(data.iter) == iter(sent(data.iter)) + 1 && lastSent(data.iter) == b
+//@   loop 6   invariant pqwf(bHeap) && len(bHeap) >= 0 && data.iterPop != nil && !closed(data.iterPop)
+//@   loop 6   invariant conserved@C05: len(bHeap) + sent(data.iterPop) == entry(6, len(bHeap) + sent(data.iterPop))
+//@   loop 6   invariant recvd(data.drop) == entry(6, recvd(data.drop)) && sent(data.iter) == entry(6, sent(data.iter))
+//@   loop 6   invariant data.iter == unboxAs(req.data, "iterData").iter && data.drop == unboxAs(req.data, "iterData").drop && data.iterPop == unboxAs(req.data, "iterData").iterPop
+//@   loop 6   ensures delivered@C05: sent(data.iterPop) == iter(sent(data.iterPop)) + 1 && lastSent(data.iterPop) == bar && len(bHeap) == iter(len(bHeap)) - 1 && !inheap(bar)
+//@   loop 6   ensures order@C06: iter(hord()) ==> bar.priority <= iter(hbound()) && hbound() == bar.priority && hord()
